@@ -7,6 +7,8 @@ KEYS = ["file", "Title", "Artist", "OK", "ACK", "list_OK", "binary", "changed", 
         "Id", "Pos", "duration", "volume", "B",
         # proper prefixes of the keywords an earlier alternative of the grammar is still waiting for
         "l", "b", "O", "A", "li", "lis", "list", "list_", "list_O", "bi", "bin", "binar", "AC", "o", "L"]
+KEY_FAMILIES = [["AlbumArtistSort", "AlbumArtist", "Album", "Al"], ["songid", "song", "so"], ["Time", "time", "TIME", "tIME"],
+                ["playlistlength", "playlist"], ["Last-Modified", "last-modified"], ["x", "X", "xx", "xX"], ["file", "fil", "File", "FILE"]]
 VALUES = ["", "", "x", "OK", "list_OK", "ACK [5@0] {} x", "binary: 3", "3", "18446744073709551616", "a: b", " ", "  lead", "trail ",
           "äö", "日本語", "\U0001F600", "\x00nul", "a\x00b", "tab\there", "\r", "foo/bar.mp3", "0", "1", "-1", "3x", ": ", "OK MPD 0.1"]
 PAYLOADS = [b"", b"a", b"OK\n", b"OK\nACK\n\x00\xff", b"\n", b"\n\n", b"list_OK\n", b"binary: 2\nab\n", b"\xff\xfe", b"\x00" * 5,
@@ -34,6 +36,15 @@ def gen_frame(rng, max_fields=6, payload_max=200, allow_bin=True):
         if k == "binary" and is_usize_numeral(v):
             v = v + "x"        # the one exclusion of wf_resp: that line IS a binary header
         fields.append((k, v))
+    if rng.random() < 0.2:
+        # keys that resemble each other, next to each other: the same word in other letter cases, a key that is a prefix of the one
+        # before — whatever a connection remembers about field names (it interns them) must not show
+        fam = rng.choice(KEY_FAMILIES)
+        run = [rng.choice(fam) for _ in range(rng.choice([2, 3, 5]))]
+        if rng.random() < 0.5:
+            run = sorted(run, key=len, reverse=True)
+        at = rng.randrange(len(fields) + 1)
+        fields[at:at] = [(k, rng.choice(["1", "x", "", "v" + str(i)])) for i, k in enumerate(run)]
     binary = None
     if allow_bin and rng.random() < 0.35:
         r = rng.random()
